@@ -34,7 +34,7 @@ func (s vkScenario) String() string { return "{" + s.Cfg.String() + "} [" + vkHi
 // vkEvents is the full alphabet, simplest first. In the validation-off unit the client's CD bit only selects another
 // answer-cache key (the delegation table has a single bucket), so the quick tier keeps one CD=1 question there; with
 // validation on CD selects the delegation bucket and whether the DS TTL bounds the lease.
-func vkEvents(thorough, dnssec bool) []vkEv {
+func vkEvents(thorough, dnssec, alias bool) []vkEv {
 	var evs []vkEv
 	evs = append(evs, vkAlphabetQs...)
 	for i, q := range vkAlphabetQs {
@@ -45,6 +45,17 @@ func vkEvents(thorough, dnssec bool) []vkEv {
 	}
 	if dnssec {
 		evs = append(evs, vkExtraQs...)
+	}
+	if alias {
+		// replies composed through an alias leg into the leased zone, and the direct question for the denied leg
+		evs = append(evs, vkAliasQs...)
+		evs = append(evs, vkLegQ)
+		for i, q := range vkAliasQs {
+			if thorough || i == 1 {
+				q.CD = true
+				evs = append(evs, q)
+			}
+		}
 	}
 	for _, d := range []int{1, 3, 5, 10, 50} {
 		evs = append(evs, vkEv{K: "adv", D: d})
@@ -62,8 +73,13 @@ type vkSpace struct {
 	Depth int
 }
 
+// vkNoAlias (VERIF_C08_NOALIAS=1) takes the alias questions out of every space (manual aid: the universe keeps the
+// alias records, nothing asks for them).
+func vkNoAlias() bool { return os.Getenv("VERIF_C08_NOALIAS") != "" }
+
 func vkSpaces(thorough, dnssec bool) []vkSpace {
 	q := func(i int, cd bool) vkEv { e := vkAlphabetQs[i]; e.CD = cd; return e }
+	a := func(i int, cd bool) vkEv { e := vkAliasQs[i]; e.CD = cd; return e }
 	adv := func(d int) vkEv { return vkEv{K: "adv", D: d} }
 	wd, rp := vkEv{K: "withdraw"}, vkEv{K: "repoint"}
 	// depth bounds {hot, deeper, apex, cd, full}, sized from measured rates (validation costs three times as much per
@@ -79,13 +95,40 @@ func vkSpaces(thorough, dnssec bool) []vkSpace {
 	if dnssec {
 		apex = []vkEv{q(2, false), q(4, false), vkExtraQs[0], vkExtraQs[1], adv(3), adv(10), wd, rp}
 	}
-	return []vkSpace{
+	// Replies composed through an alias leg into the leased zone, across the end of the child's lease and the parent's
+	// change. alias: the DNAME pair (denied leg, positive leg) and the denied leg's direct question, so that a composed
+	// reply finds its leg in memory. aliascn: the same through CNAME (the cache middleware's chase instead of the
+	// resolver's DNAME leg). aliascd: the denied DNAME leg under CD=0 next to CD=1
+	// (other answer-cache key; when validating also the other delegation bucket and no DS bound).
+	// fullalias: the full alphabet PLUS the alias questions (19 / 21 events; thorough 26 / 28), shallow — cross-name
+	// interplay of composed replies with everything else; "full" itself keeps its alphabet and depth.
+	da := [4]int{5, 5, 6, 3}
+	switch {
+	case thorough:
+		da = [4]int{12, 12, 12, d[4]}
+	case dnssec:
+		da = [4]int{4, 4, 5, 2}
+	}
+	// the direct question that shares its answer-cache key with the resolver's DNAME target leg: with validation off the
+	// resolver's internal leg is keyed CD=1 (the cache middleware's CNAME chase always mirrors the client's CD)
+	legD := vkLegQ
+	legD.CD = !dnssec
+	var alias []vkSpace
+	if !vkNoAlias() {
+		alias = []vkSpace{
+			{"alias", []vkEv{a(1, false), a(0, false), legD, adv(3), adv(10), wd, rp}, da[0]},
+			{"aliascn", []vkEv{a(3, false), a(2, false), vkLegQ, adv(3), adv(10), wd, rp}, da[1]},
+			{"aliascd", []vkEv{a(1, false), a(1, true), adv(3), adv(10), rp}, da[2]},
+			{"fullalias", vkEvents(thorough, dnssec, true), da[3]},
+		}
+	}
+	return append([]vkSpace{
 		{"hot", []vkEv{q(0, false), adv(1), adv(3), adv(5), wd, rp}, d[0]},                  // one name kept hot
 		{"deeper", []vkEv{q(1, false), q(0, false), adv(3), adv(5), adv(10), wd, rp}, d[1]}, // grandchild delegation under the child's lease
 		{"apex", apex, d[2]}, // apex NS, a denied name, (DNSSEC: the child's DNSKEY and the grandchild's DS | else: the child's DS at the parent)
 		{"cd", []vkEv{q(0, false), q(0, true), q(4, true), adv(3), adv(5), adv(50), wd}, d[3]},
-		{"full", vkEvents(thorough, dnssec), d[4]},
-	}
+		{"full", vkEvents(thorough, dnssec, false), d[4]},
+	}, alias...)
 }
 
 type vkResult struct {
@@ -284,6 +327,23 @@ func vkExplore(t *testing.T, unit string, dnssec bool) {
 	}
 	spaces := vkSpaces(c.Thorough(), dnssec)
 	cfgs := vkConfigs(c.Thorough(), dnssec)
+	// The 12 h ceiling of the lease: a referral with NS TTL 2 d (the usual TLD value) and a child whose records carry
+	// 7 d. The delegation entry ends at +12 h, and so must everything learned through it. These two configurations are
+	// searched in their own narrow space only (13 h clock steps), every other space runs on the ordinary configurations.
+	big := [3]uint32{172800, 172800, 172800}
+	ceilCfgs := []vkCfg{{NS: big, DS: big, Beh: "bigttl", DNSSEC: dnssec}, {NS: big, DS: big, Beh: "bigttl", Prefetch: true, DNSSEC: dnssec}}
+	half := vkEv{K: "adv", D: 46800} // 13 h
+	ceilDepth := 4
+	if c.Thorough() {
+		ceilDepth = 6
+	}
+	ceilSpace := vkSpace{"ceiling", []vkEv{vkAlphabetQs[0], vkAlphabetQs[4], vkAlphabetQs[1], half, {K: "adv", D: 10}, {K: "repoint"}, {K: "withdraw"}}, ceilDepth}
+	if os.Getenv("VERIF_C08_CEILING") != "" { // manual aid: only the ceiling search
+		cfgs, spaces = nil, nil
+	}
+	isCeil := func(cf vkCfg) bool { return cf.NS == big }
+	cfgs = append(cfgs, ceilCfgs...)
+	spaces = append(spaces, ceilSpace)
 	if s := os.Getenv("VERIF_C08_CFG"); s != "" { // manual aid: only configurations whose text contains s
 		var keep []vkCfg
 		for _, cf := range cfgs {
@@ -323,13 +383,16 @@ func vkExplore(t *testing.T, unit string, dnssec bool) {
 	n := 0
 	for _, sp := range spaces {
 		for _, cfg := range cfgs {
+			if (sp.Name == "ceiling") != isCeil(cfg) {
+				continue
+			}
 			if c.Mine(n) {
 				if c.Quick() && !dnssec {
 					// a history without the refresh machinery costs a third of one with it
 					if sp.Name == "full" && !cfg.Prefetch {
 						sp.Depth++
 					}
-					if cfg.Prefetch && sp.Name != "full" && sp.Name != "hot" {
+					if cfg.Prefetch && (sp.Name == "deeper" || sp.Name == "apex" || sp.Name == "cd") {
 						sp.Depth--
 					}
 				}
@@ -438,7 +501,7 @@ func vkExplore(t *testing.T, unit string, dnssec bool) {
 		}
 	}
 	for _, w := range vkWorlds {
-		w.waitIdle(nil)
+		w.waitIdle()
 	}
 }
 
